@@ -189,7 +189,7 @@ def check_case(lines, obs, want=("C11", "C12")):
                             amb = True
                     if amb:
                         continue
-            if lay.get("csv") == "True" and any(d[2] == "n" for d in dims):
+            if (lay.get("csv") == "True" or lay.get("via") == "csvreader") and any(d[2] == "n" for d in dims):
                 continue                # CSV text cannot carry the type of untyped items
             # ---------- what the faults demand
             demand_err = None
